@@ -774,6 +774,28 @@ func (r *JobRun) tickOp(op *Op, i int) *Violation {
 	}
 	r.installC17(spec, st)
 	defer r.clearFaults()
+	if op.N >= 2 {
+		// several trigger periods in a row: failures and re-runs overlap; only the retry budget is judged
+		before := PointHits()["go:job.rerun"]
+		horizon := time.Duration(op.N)*10*time.Minute + time.Duration(int64(maxRetries+1)*retryDelay)*time.Second + time.Minute
+		for left := horizon; left > 0; left -= time.Minute {
+			time.Sleep(time.Minute)
+		}
+		if !r.H.WaitJobsIdle(2 * time.Hour) {
+			return viol("C17", "job-run", "job-hangs", "job still running after 2h of simulated time")
+		}
+		reruns := int(PointHits()["go:job.rerun"] - before)
+		r.Stats["job_runs"] += int64(len(st.runs))
+		r.Stats["multi_tick_episodes"]++
+		r.ev("ticks=%d runs=%d reruns=%d", op.N, len(st.runs), reruns)
+		if reruns > maxRetries {
+			return viol("C17", "rerun", "too-many-reruns", "over %d trigger periods with a sink that keeps failing the job was re-run %d times by its reRun handler, maxRetries=%d (retryDelay %ds, trigger every 600s)", op.N, reruns, maxRetries, retryDelay)
+		}
+		if !hasRerun && reruns > 0 {
+			return viol("C17", "rerun", "rerun-without-cause", "%d re-runs without a reRun handler", reruns)
+		}
+		return nil
+	}
 	// advance to just after the next trigger time: the "@every 10m" trigger fires once
 	time.Sleep(10*time.Minute + time.Second)
 	if !r.H.WaitJobsIdle(2 * time.Hour) {
